@@ -310,3 +310,26 @@ def run(ctx):
         hm11.rel,
         ht.lineno,
     )
+
+    # ---- C20.12 every job whose end is recorded has had its job tags recorded ------------------------------
+    # Jobs that arrive at the resolve finaliser with a call hash (cache hits, same-execution duplicates, jobs collapsed onto a twin) skip the
+    # recording arm; their task/option tags and the context Job tag are written only by the call in the common tail.
+    from ..cfg import CFG
+
+    r12 = ctx.rule("C20.12", "every path to record_job_end in the finalisers passes _record_job_tags(job)", floor=2)
+    for q in ("Scheduler._resolve_job_main_thread", "Scheduler._reject_job_main_thread"):
+        fn = m.func(q)
+        jv = fn.args.args[1].arg
+        cfg = CFG(fn)
+        ends = [cfg.node_of(c) for c in calls_in(fn, shallow=True) if call_name(c) == "self.backend.record_job_end"]
+        tags = [cfg.node_of(c) for c in calls_in(fn, shallow=True) if call_name(c) == "self._record_job_tags" and c.args and src(c.args[0]) == jv]
+        if not ends:
+            raise AnalysisError(f"{q} no longer calls backend.record_job_end", q)
+        r12.check(
+            bool(tags) and cfg.must_pass(cfg.entry, tags, targets=ends),
+            f"{m.rel}:{q}:job-tags-before-job-end",
+            "a job can have its end recorded without _record_job_tags(job): on the arm that skips call-node recording (job already has a call hash: cache hit, "
+            "same-execution duplicate, collapsed twin) the tags of @task(tags=..)/.options(tags=..) and the redun.context Job tag are never attached",
+            m.rel,
+            fn.lineno,
+        )
